@@ -276,7 +276,7 @@ class Session:
                 add("check:no deadlock (some thread unfinished, nobody enabled, no timed waiter)", OR(*dl), "check")
             if self.sched.enabled_at_end is not FALSE:
                 add("unwinding:no thread is still enabled at the step bound", self.sched.enabled_at_end, "unsat-required")
-            allfin = AND(*[NOT(st.guard) for st in self.finals if st.status == "parked"])
+            allfin = AND(*[NOT(st.guard) for st in self.finals if st.status == "parked" and st.park[0] != "forever"])
             add("reach:some schedule runs every thread to completion", allfin, "sat-required")
         for g, what, where in getattr(vm, "blocked", []):
             add(f"check:blocks forever: {what}", g, "check")
@@ -487,7 +487,7 @@ def run_session_spec(spec):
         out["solver_time_build"] = sess.vm.solver_time
         # translator validation: the witness inputs are run natively too and must not fail any check
         tv = 0
-        for smp in sess.samples[:1]:
+        for smp in ([] if sess.steps else sess.samples[:1]):
             if "..." not in smp["inputs"]:
                 nat = sess.replay_native(smp["inputs"])
                 if nat["failed"] or nat.get("error"):
